@@ -783,25 +783,8 @@ func c07ExpansionIdempotent(c *Ctx, r *Report) {
 	// decode stopped, so the accumulated values of the re-decoded File differ from the File that was
 	// encoded. (An accumulator built with new(uint32Accumulator) has mask 0 and always yields 0: that
 	// is C18's finding, and idempotent.)
-	for _, g := range c.ssaPkgs[modPath].Members {
-		gv, ok := g.(*ssa.Global)
-		if !ok || !strings.HasSuffix(gv.Type().String(), ".uint32Accumulator") {
-			continue
-		}
-		masked := false
-		for _, fn := range c.moduleFuncs() {
-			for _, b := range fn.Blocks {
-				for _, ins := range b.Instrs {
-					st, ok := ins.(*ssa.Store)
-					if !ok || st.Addr != ssa.Value(gv) {
-						continue
-					}
-					if call, ok := st.Val.(*ssa.Call); ok && call.Common().StaticCallee() != nil && call.Common().StaticCallee().Name() == "uint32NewAccumulator" {
-						masked = true
-					}
-				}
-			}
-		}
+	for _, al := range liveAccumulators(c) {
+		gv, masked := al.g, al.masked
 		if masked {
 			r.fail("C07-R4-expansion-idempotent", "fit."+gv.Name(), c.pos(gv.Pos()), "accumulator "+gv.Name()+" is a package-level variable that is never reset: decoding Encode's output continues the running sum of the first decode, so the accumulated field of the re-decoded File differs from the File that was encoded")
 		} else {
@@ -1323,4 +1306,44 @@ func encodeLeavesMessages(c *Ctx, r *Report, rule string) {
 	}
 	r.ok(rule, "scan", "", fmt.Sprintf("%d functions on Encode's call tree, %d stores into message members, all into messages the storing function allocated itself", nFn, nStores))
 	r.need("functions on Encode's call tree", nFn, 10)
+}
+
+type accuLive struct {
+	g      *ssa.Global
+	masked bool
+}
+
+// liveAccumulators: the package-level accumulators and whether each is built with a roll-over width
+// (uint32NewAccumulator(bits): its state shows in what is decoded) or as a zero value (mask 0: it
+// always yields 0, whatever was decoded before).
+func liveAccumulators(c *Ctx) []accuLive {
+	var out []accuLive
+	var names []string
+	mem := c.ssaPkgs[modPath].Members
+	for n := range mem {
+		names = append(names, n)
+	}
+	sort.Strings(names)
+	for _, n := range names {
+		gv, ok := mem[n].(*ssa.Global)
+		if !ok || !strings.HasSuffix(gv.Type().String(), ".uint32Accumulator") {
+			continue
+		}
+		masked := false
+		for _, fn := range c.moduleFuncs() {
+			for _, b := range fn.Blocks {
+				for _, ins := range b.Instrs {
+					st, ok := ins.(*ssa.Store)
+					if !ok || st.Addr != ssa.Value(gv) {
+						continue
+					}
+					if call, ok := st.Val.(*ssa.Call); ok && call.Common().StaticCallee() != nil && call.Common().StaticCallee().Name() == "uint32NewAccumulator" {
+						masked = true
+					}
+				}
+			}
+		}
+		out = append(out, accuLive{gv, masked})
+	}
+	return out
 }
